@@ -762,6 +762,14 @@ impl<'c, Q: Queue> Interp<'c, Q> {
         if d.eq_q(&self.q) || self.q.eq_q(&d) {
             self.fail(Group::EqClone, "eq_ignores_item", "queue compares equal to itself plus one item".into());
         }
+        // Debug formatting is a safe public call too
+        if self.model.len() <= 64 {
+            let d = self.q.debug_string();
+            if d.is_empty() {
+                self.fail(Group::Content, "debug_empty", "Debug output is empty".into());
+            }
+            self.stats.hit("debug_fmt");
+        }
         self.stats.hit("eq_probe");
     }
 }
